@@ -23,8 +23,8 @@ structure WalkFrame where
 
 /-- `walk_frame(root)` -/
 def walkFrame (root : Nat) (s : Store) : M WalkFrame :=
-  -- `root + 1`: u32 overflow in the checked profile (release: wraps, `range` panics unless empty)
-  if root + 1 ≥ W32 then throw .overflow
+  -- `root + 1`: u32 overflow panic in the checked profile (release: wraps, `range` panics unless empty)
+  if root + 1 ≥ W32 then throw .panic
   else pure { root := root,
               pqs := (s.doubles.filter (fun e => e.1.1 = root)).map (fun e => e.1),
               qps := s.doublesRev.filter (fun e => e.1 = root),
